@@ -268,6 +268,18 @@ func (c *Ctx) evalIdent(name string) Val {
 			return c.derefCell(v)
 		}
 	}
+	if name == "panicking" {
+		if c.own {
+			if v, ok := c.st.ghosts["$recovered"]; ok {
+				return scalar("(not (= "+v.T+" 0))", SBool, types.Typ[types.Bool])
+			}
+			return scalar("false", SBool, types.Typ[types.Bool])
+		}
+		if v, ok := c.st.ghosts["$panicking"]; ok {
+			return v
+		}
+		return scalar("false", SBool, types.Typ[types.Bool])
+	}
 	if name == "result" {
 		if len(c.result) == 1 {
 			return c.result[0]
